@@ -29,13 +29,14 @@ def _judge_drift(ctx, tag, rng, solve, f, fe, qs, nunit, cond, key, known_mechan
     """`fe = solve(f)` must be `f` again.  The drift, per step and stage and measured against the state scale, is allowed the round-off
     of ONE boundary evaluation (eps/M for a total-pressure condition) -- NOT compounded over the steps: a boundary closure that is a
     stable discretisation does not amplify its own round-off.  When the drift is larger, the monitor measures what the same solve
-    does to a perturbation of 1e-12 (twin run): amplification <= 10 means the drift is unexplained (violation under `key`);
-    a large amplification means the uniform state is a linearly UNSTABLE fixed point of this closure at this step size -- the
-    pressure-extrapolating total-pressure conditions (`insub`, `outsub_qtot`) below Mach ~ CFL/4 with explicit integrators, finding D21,
-    reported under its own mechanism key only for those conditions and only while the drift stays within what the measured
-    amplification explains."""
+    does to a perturbation of 1e-12 (twin run) and the round-off is carried with that amplification (never below 1); a drift beyond
+    it is a violation under `key`.  A large amplification means the uniform state is a linearly UNSTABLE fixed point at this step size:
+    for the pressure-extrapolating total-pressure conditions (`insub`, `outsub_qtot`: below Mach ~ CFL/4 with explicit integrators) that
+    is finding D21, reported under its own mechanism key only for those conditions and only while the drift stays within what the
+    measured amplification explains; configurations that amplify by more than 1e4 for another reason (no dissipation at all, D20's
+    Jacobian noise on sliver meshes) hold no state whatever and are not judged on the solve (the operator check rhs1d judges them)."""
     eps = np.finfo(float).eps
-    tol1 = TOL + 1e3 * eps * _cond_rhs(cond)
+    tol1 = TOL + 1e4 * eps * _cond_rhs(cond)          # (1e3 for one operator evaluation; a step chains up to six of them)
     d = [float(np.max(np.abs(np.asarray(fe.data[i]) - np.asarray(f.data[i])))) / qs[i] / nunit for i in range(len(qs))]
     worst = int(np.argmax(d)) if np.all(np.isfinite(d)) else int(np.argmax(~np.isfinite(d)))
     if np.isfinite(d[worst]) and d[worst] <= tol1:
@@ -52,13 +53,22 @@ def _judge_drift(ctx, tag, rng, solve, f, fe, qs, nunit, cond, key, known_mechan
     amp = max(float(np.max(np.abs(np.asarray(twin.data[i]) - np.asarray(base.data[i])))) / qs[i] for i in range(len(qs))) / pert
     ctx.info["amplification_measured"] = ctx.info.get("amplification_measured", 0) + 1
     det = dict(detail, eq=worst, drift_per_step_and_stage=d[worst], allowed_without_amplification=tol1, measured_amplification=amp)
-    if known_mechanism and np.isfinite(amp) and amp > 10.0 and np.isfinite(d[worst]) and d[worst] <= tol1 * amp * 1e3:
+    # (below Mach 1e-3 the instability saturates within one stage -- gain CFL/(2M) > 300 per stage, the linear range of the closure is
+    # dp/p << M^2 -- so no perturbation a double can carry measures it: there the mechanism is recognised by its conditions alone)
+    saturated = detail.get("mach") is not None and abs(detail["mach"]) < 1e-3
+    if known_mechanism and np.isfinite(d[worst]) and ((np.isfinite(amp) and amp > 10.0 and d[worst] <= tol1 * amp * 1e3) or saturated):
         ctx.info["unstable_fixed_points"] = ctx.info.get("unstable_fixed_points", 0) + 1
         ctx.ev(tag.split(":")[0])
         ctx.fail(known_mechanism, det)
         return
-    # a stable closure may still amplify transiently (non-normal growth, measured <= 10): the round-off of every stage is carried with it
-    ctx.close(tag, d[worst], tol1 * float(np.clip(amp, 1.0, 10.0)) if np.isfinite(amp) else tol1, key, det, cls=tag.split(":")[0])
+    if not np.isfinite(amp) or amp > 1e4:
+        # an unstable configuration of the user's own choosing (no dissipation at all: centred flux with a centred reconstruction and
+        # forward Euler / local time steps / sliver cells, D20's Jacobian noise ...): no state at all is held by it, the uniform one included;
+        # what the property promises -- a fixed point -- is judged on the operator (rhs1d) and on stable configurations
+        ctx.skip("unstable configuration (a 1e-12 perturbation grows > 1e4 over the run): drift not judged")
+        return
+    # round-off is carried with whatever the configuration does to perturbations (measured on the real code, never below 1)
+    ctx.close(tag, d[worst], tol1 * max(1.0, amp), key, det, cls=tag.split(":")[0])
 
 
 UNSTABLE_CLOSURES = ("insub", "outsub_qtot")          # extrapolate the interior pressure and rebuild the velocity from a total pressure
@@ -225,14 +235,17 @@ def nozzle_rest(ctx, rng, idx):
     dxmin = float(np.min(mesh.vol()))
     for i in range(3):
         ctx.close("nozzle:residual", np.max(np.abs(r[i])) * dxmin / fs[i], TOL, "nozzle-rest/rhs-not-zero", {"eq": i}, cls="nozzle-rest")
-    solver = gen.integ(iname)(mesh, disc)
-    # at rest a total-pressure condition turns a round-off perturbation of p into a velocity of sqrt(round-off): the first step is
-    # exact, later ones are not (same 1/M^2 conditioning as in solve1d)
-    sensitive = bkind == "inout" and (bcL["type"] in ("insub", "insub_cbc") or bcR["type"] == "outsub_qtot")
-    res = solver.solve(f, 0.5, stop={"maxit": 1 if sensitive else 3})
-    for i in range(3):
-        ctx.close("nozzle:solve", np.max(np.abs(res[-1].data[i] - f.data[i])) / qs[i], TOL, "nozzle-rest/solve-drifts/" + ("implicit" if iname in gen.IMPLICIT else "explicit"),
-                  {"eq": i, "integrator": iname}, cls="nozzle-rest")
+    # at rest a pressure-extrapolating total-pressure condition turns a round-off perturbation of p into a velocity of sqrt(round-off):
+    # M = 0 is the extreme case of finding D21 (judged as in solve1d: known mechanism only for those closures)
+    nstep = int(rng.integers(1, 4))
+
+    def solve(f0):
+        return gen.integ(iname)(mesh, disc).solve(f0, 0.5, stop={"maxit": nstep})[-1]
+    known = None
+    if bkind == "inout" and (bcL["type"] in UNSTABLE_CLOSURES or bcR["type"] in UNSTABLE_CLOSURES):
+        known = "solve1d/unstable-fixed-point/pressure-extrapolating-total-pressure-closure/" + ("explicit" if iname in gen.EXPLICIT else "implicit-fd-jacobian-below-mach-1e-3")
+    _judge_drift(ctx, "nozzle-rest:solve", rng, solve, f, solve(f), qs, nstep * gen.NSTAGE.get(iname, 1), 1.0,
+                 "nozzle-rest/solve-drifts/" + ("implicit" if iname in gen.IMPLICIT else "explicit"), known, {"integrator": iname, "nstep": nstep, "mach": 0.0})
     ctx.nontrivial("nozzle", sec.desc, mdesc, rname, flux, iname)
 
 
@@ -248,8 +261,8 @@ def solve1d(ctx, rng, idx):
     if desc.get("ill_posed_boundary_pair"):
         nstep = 1
     if not np.isfinite(cond):
-        nstep = 1           # exactly at rest the first step is exact; later steps see sqrt(round-off) velocities at the boundary (M = 0 is the
-        cond = 1.0          # branch point of the total-pressure inversion)
+        cond = 1.0          # exactly at rest the first evaluation is exact (ptot/p == 1 gives M = 0); M = 0 is the branch point of the total-pressure
+        #                     inversion: later steps see sqrt(round-off) velocities at the boundary -- the extreme case of finding D21, judged the same way
     ctx.describe(integrator=iname, cfl=cfl, nstep=nstep, dtlocal=dtlocal, **desc)
     dirs = {"dtlocal": True} if dtlocal else {}
 
@@ -260,7 +273,7 @@ def solve1d(ctx, rng, idx):
     known = None
     mach = float(desc["state"][1] / np.sqrt(model.gamma * desc["state"][2] / desc["state"][0])) if len(desc["state"]) == 3 else None
     if any(t in UNSTABLE_CLOSURES for t in types):
-        if iname in gen.EXPLICIT:
+        if iname in gen.EXPLICIT and abs(mach) < 0.5 * cfl:
             known = "solve1d/unstable-fixed-point/pressure-extrapolating-total-pressure-closure/explicit"
         elif abs(mach) <= 1e-3:
             # implicit integrators: the closure's velocity ~ sqrt(ptot - p) cannot be differenced with a relative step sqrt(eps) once
@@ -381,7 +394,7 @@ def solve2d(ctx, rng, idx):
         raise
     known = "solve2d/unstable-fixed-point/pressure-extrapolating-total-pressure-closure/explicit" if (desc["kind"] == "sub-normal" and iname in gen.EXPLICIT) else None
     _judge_drift(ctx, "solve2d:drift", rng, solve, f, fe, qs, nstep * gen.NSTAGE.get(iname, 1), cond, "solve2d/uniform-drifts/" + desc["kind"], known,
-                 {"integrator": iname, "cfl": cfl, "nstep": nstep})
+                 {"integrator": iname, "cfl": cfl, "nstep": nstep, "mach": 1.0 / np.sqrt(cond - 1.0) if cond > 1.0 else None})
     ctx.nontrivial("solve2d", iname, cfl, nstep, desc)
 
 
